@@ -39,6 +39,11 @@ RULE = (
     "a connection it opens, as a peer that still has it queued from an earlier session) while the client's own "
     "remote-queue attempt still hangs in a slow / hanging / late-refusing connect, so that both negotiation tasks of "
     "the download exist at the call, and may offer it once more 1 ms..6 s after the call returned (must be refused) "
+    "; a call can be aimed relative to the moment the transfer reaches a state (e.g. 0..5 s after an upload went "
+    "FAILED because the scripted downloader closed its message connections and reset the file connection after k "
+    "bytes of a rate-limited upload, so that the failure notice needs a new slow connection); after the (last) call "
+    "returned the peer may send PeerTransferQueueFailed / PeerTransferReply(allowed=False) with a generated reason "
+    "(incl. the empty string) or PeerUploadFailed for the file "
     "+ 200 s of virtual time afterwards. "
     "Oracle, per stopped transfer, after the call returned at T: (1) no PeerTransferQueue / PeerTransferRequest / "
     "PeerPlaceInQueueRequest / PeerUploadFailed naming the file, no PeerTransferReply(allowed) and no file-connection "
@@ -47,7 +52,8 @@ RULE = (
     "server after T unless another not-yet-stopped transfer of the same user exists at that time, and no connect task "
     "of an unjustified user outlives T; (3) state, reasons, remotely_queued, bytes_transfered, local_path, filesize, "
     "place_in_queue, attempt counters and times equal the snapshot taken at T (remotely_queued may be reset by a later "
-    "OFFLINE status of the user), the state at T is ABORTED / PAUSED resp. the transfer is gone from the manager, and "
+    "OFFLINE status of the user or by a PeerUploadFailed of the peer; a PeerTransferQueueFailed of the peer fails a "
+    "PAUSED download with exactly the peer's reason), the state at T is ABORTED / PAUSED resp. the transfer is gone from the manager, and "
     "remotely_queued is not set at T when no connection with the user ever existed; (4) at T no pending asyncio task "
     "runs a remote-queue / initialise routine holding this transfer and none is created later. At all times (every "
     "task creation, seen through a loop task factory, and every driver step): at most one pending task per routine "
@@ -82,6 +88,9 @@ HORIZON = 200.0
 OPS = ['abort', 'pause', 'remove']
 TRIGGER_KINDS = ('status', 'adduser', 'add', 'friend', 'block', 'rescan', 'sharedir')
 STIMULI = ['friend', 'block', 'rescan', 'sharedir']
+WAIT_STATES = ('FAILED', 'INCOMPLETE', 'INITIALIZING', 'UPLOADING', 'DOWNLOADING')
+PEER_MSGS = ('queue_failed', 'upload_failed', 'reply_refused')
+REASONS = ['', 'Cancelled', 'File not shared.', 'Queued', 'Complete', 'Banned', 'x']
 DIRECT = ['accept', 'refuse', 'hang', 'reset']
 INDIRECT = ['pierce', 'cannot', 'silent']
 NEG_ROUTINES = {
@@ -137,6 +146,7 @@ def _peer(draw, role, slow_bias):
         p['allow'] = draw(st.integers(0, 7)) > 0
         p['reply_ms'] = draw(_ms(2, 2, 300, 3000, 9000, 29000, lo=2, hi=12000))
         p['offset_ms'] = draw(_ms(2, 2, 300, 3000, 9000, lo=2, hi=12000))
+        p['reset_k'] = draw(st.sampled_from([None] * 7 + [0, 2000]))
     return p
 
 
@@ -236,7 +246,8 @@ def case_strategy(draw, focus=None):
         ops.append({'peer': pi, 'xfer': xi, 'op': op, 'at': max(0, at),
                     'steps': draw(st.sampled_from([0, 0, 1, 2, 3, 4, 6])), 'then': then,
                     'gap': draw(st.sampled_from([0, 1, 60, 1000, 4000])) if then else 0,
-                    'steps2': draw(st.sampled_from([0, 0, 1, 3])) if then else 0})
+                    'steps2': draw(st.sampled_from([0, 0, 1, 3])) if then else 0, 'after_state': None, 'delay': 0,
+                    'peer_msg': _peer_msg(draw) if draw(st.integers(0, 7)) == 0 else None})
     first_op = min(o['at'] for o in ops)
     ntrig = draw(st.integers(0, 6))
     trig = []
@@ -324,6 +335,81 @@ def offline_case(draw):
                      'user': draw(st.integers(0, len(peers))), 'status': draw(st.sampled_from([2, 1])), 'pad': 0})
     return {'mode': draw(st.sampled_from(['fallback', 'race'])), 'up_kbps': 0, 'down_kbps': 0,
             'exec_ms': draw(st.sampled_from([0, 1, 3, 5])), 'peers': peers, 'triggers': trig, 'ops': ops}
+
+
+def _peer_msg(draw, delay_hi=5000):
+    return {'kind': draw(st.sampled_from(PEER_MSGS + ('queue_failed', 'queue_failed'))),
+            'reason': draw(st.sampled_from(REASONS + ['', '', '', ''])),
+            'delay': draw(st.sampled_from([1, 2, 100, 1000]) | st.integers(1, delay_hi))}
+
+
+@st.composite
+def peermsg_case(draw):
+    """After pause / abort / remove returned the peer says something about the file that is not a new queue request or
+    offer: PeerTransferQueueFailed / PeerTransferReply(allowed=False) with a generated reason (incl. the empty string)
+    or PeerUploadFailed; biased to downloads whose own queue attempt still waited for a slow connect (not remotely
+    queued) when the call was made."""
+    role = draw(st.sampled_from(['U', 'U', 'U', 'D']))
+    p = draw(_peer(role, slow_bias=True))
+    p['xfers'] = [{'at': draw(st.sampled_from([0, 0, 40])), 'size': draw(st.integers(1000, 20000))}
+                  for _ in range(draw(st.sampled_from([1, 1, 2])))]
+    if role == 'U':
+        slow = draw(st.integers(0, 3)) > 0
+        p.update({'direct': draw(st.sampled_from(['accept', 'accept', 'hang', 'refuse'])),
+                  'direct_ms': draw(st.sampled_from([3000, 6000, 9900])) if slow else 2,
+                  'indirect': draw(st.sampled_from(['silent', 'cannot', 'pierce'])),
+                  'indirect_ms': draw(st.sampled_from([3000, 20000])), 'auto_start': draw(st.booleans()),
+                  'start_ms': draw(st.sampled_from([500, 3000])), 'offer_ms': None,
+                  'late_offer_ms': draw(st.sampled_from([None, None, None, 1, 3000]))})
+        hi = 2500 if slow else 1200
+    else:
+        hi = 3000
+    xi = draw(st.integers(0, len(p['xfers']) - 1))
+    at = p['xfers'][xi]['at'] + draw(st.integers(60, hi))
+    op = draw(st.sampled_from(['pause', 'pause', 'pause', 'abort', 'remove']))
+    then = draw(st.sampled_from([None, None, None, 'abort'])) if op == 'pause' else None
+    peers = [p]
+    if draw(st.integers(0, 3)) == 0:
+        peers.append(draw(_peer(draw(st.sampled_from(['U', 'D'])), slow_bias=draw(st.booleans()))))
+    ops = [{'peer': 0, 'xfer': xi, 'op': op, 'at': at, 'steps': draw(st.sampled_from([0, 0, 1, 3])), 'then': then,
+            'gap': draw(st.sampled_from([0, 60, 1000])) if then else 0, 'steps2': 0, 'after_state': None, 'delay': 0,
+            'peer_msg': _peer_msg(draw)}]
+    trig = []
+    for _ in range(draw(st.integers(0, 2))):
+        trig.append({'at': draw(st.integers(0, at + 8000)), 'kind': draw(st.sampled_from(['status', 'adduser', 'add'])),
+                     'user': draw(st.integers(0, len(peers))), 'status': draw(st.sampled_from([2, 2, 1])), 'pad': 0})
+    return {'mode': draw(st.sampled_from(['fallback', 'race'])), 'up_kbps': 0, 'down_kbps': 0,
+            'exec_ms': draw(st.sampled_from([0, 0, 1])), 'peers': peers, 'triggers': trig, 'ops': ops}
+
+
+@st.composite
+def upfail_case(draw):
+    """An upload breaks in the middle: the peer closes its message connections and resets the file connection after k
+    bytes of a rate-limited upload, so the client's write fails (FAILED) and the failure notice needs a new, slow
+    connection to the peer; remove (abort / pause are refused for a FAILED transfer) is called 0..connect time after
+    the transfer became FAILED."""
+    p = draw(_peer('D', slow_bias=True))
+    d = draw(st.sampled_from([500, 1500, 3000, 5000]))
+    p.update({'direct': 'accept', 'direct_ms': d, 'indirect': draw(st.sampled_from(['silent', 'cannot', 'pierce'])),
+              'indirect_ms': draw(st.sampled_from([3000, 20000])), 'drop_link': draw(st.integers(0, 3)) > 0,
+              'silent': False, 'allow': True, 'reply_ms': 2, 'offset_ms': 2,
+              'reset_k': draw(st.sampled_from([0, 1000, 3000]))})
+    p['xfers'] = [{'at': draw(st.sampled_from([0, 40])), 'size': draw(st.integers(8000, 30000))}
+                  for _ in range(draw(st.sampled_from([1, 1, 2])))]
+    peers = [p]
+    if draw(st.integers(0, 4)) == 0:
+        peers.append(draw(_peer(draw(st.sampled_from(['U', 'D'])), slow_bias=draw(st.booleans()))))
+    op = draw(st.sampled_from(['remove', 'remove', 'remove', 'remove', 'abort', 'pause']))
+    ops = [{'peer': 0, 'xfer': 0, 'op': op, 'at': 0, 'steps': draw(st.sampled_from([0, 0, 1, 3])), 'then': None, 'gap': 0,
+            'steps2': 0, 'after_state': draw(st.sampled_from(['FAILED', 'FAILED', 'FAILED', 'UPLOADING'])),
+            'delay': draw(st.sampled_from([0, 1, 5]) | st.integers(0, d + 200)),
+            'peer_msg': _peer_msg(draw) if draw(st.integers(0, 3)) == 0 else None}]
+    trig = []
+    for _ in range(draw(st.integers(0, 2))):
+        trig.append({'at': draw(st.integers(0, 20000)), 'kind': draw(st.sampled_from(['status', 'adduser', 'add'])),
+                     'user': draw(st.integers(0, len(peers))), 'status': draw(st.sampled_from([2, 2, 1])), 'pad': 0})
+    return {'mode': draw(st.sampled_from(['fallback', 'race'])), 'up_kbps': draw(st.sampled_from([2, 4])),
+            'down_kbps': 0, 'exec_ms': draw(st.sampled_from([0, 0, 1])), 'peers': peers, 'triggers': trig, 'ops': ops}
 
 
 @st.composite
@@ -455,6 +541,14 @@ def _int(v, lo, hi, default):
     return max(lo, min(hi, v))
 
 
+def _clean_peer_msg(m):
+    if not isinstance(m, dict) or m.get('kind') not in PEER_MSGS:
+        return None
+    reason = m.get('reason')
+    return {'kind': m['kind'], 'reason': reason if reason in REASONS else 'Cancelled',
+            'delay': _int(m.get('delay'), 1, 20000, 1)}
+
+
 def _sanitise(case):
     if not isinstance(case, dict):
         return None
@@ -492,6 +586,7 @@ def _sanitise(case):
             q['allow'] = bool(p.get('allow', True))
             q['reply_ms'] = _int(p.get('reply_ms'), 2, 40000, 2)
             q['offset_ms'] = _int(p.get('offset_ms'), 2, 40000, 2)
+            q['reset_k'] = None if p.get('reset_k') is None else _int(p.get('reset_k'), 0, 60000, 1000)
         peers.append(q)
     if not peers:
         return None
@@ -508,7 +603,9 @@ def _sanitise(case):
         ops.append({'peer': pi, 'xfer': xi, 'op': o.get('op') if o.get('op') in OPS else 'abort',
                     'at': _int(o.get('at'), 0, 80000, 0), 'steps': _int(o.get('steps'), 0, 8, 0),
                     'then': o.get('then') if o.get('then') in ('abort', 'remove') else None,
-                    'gap': _int(o.get('gap'), 0, 20000, 0), 'steps2': _int(o.get('steps2'), 0, 8, 0)})
+                    'gap': _int(o.get('gap'), 0, 20000, 0), 'steps2': _int(o.get('steps2'), 0, 8, 0),
+                    'after_state': o.get('after_state') if o.get('after_state') in WAIT_STATES else None,
+                    'delay': _int(o.get('delay'), 0, 20000, 0), 'peer_msg': _clean_peer_msg(o.get('peer_msg'))})
     if not ops:
         return None
     trig = []
@@ -714,6 +811,22 @@ def _run(c, res, tmp):
                 down.allow = p['allow']
                 down.reply_delay = p['reply_ms'] / 1000.0
                 down.offset_delay = p['offset_ms'] / 1000.0
+                if p['reset_k'] is not None:
+                    # the peer vanishes in the middle of the first upload of a file: it closes its message
+                    # connections and resets the file connection after k bytes (the client's next write fails)
+                    down.broken = set()
+
+                    def on_file_data(link, down=down, k=p['reset_k'], orig=down._on_file_data):
+                        orig(link)
+                        att = getattr(link, 'attempt', None)
+                        if att is None or att.path in down.broken or len(att.received) < k:
+                            return
+                        down.broken.add(att.path)
+                        for other in down.peer.links:
+                            if other.typ == 'P' and not other.ep.dead:
+                                other.ep.close()
+                        link.ep.reset(delay=0.005)
+                    down.peer.on_file_data = on_file_data
                 scripts.append(down)
 
         client = await world.start_client(s)
@@ -734,9 +847,15 @@ def _run(c, res, tmp):
         transitions = []      # (time, transfer, old, new)
         added = []            # (time, transfer)
 
+        state_waiters = []    # (username, remote path, direction name, state name, future)
+
         class Listener:
             async def on_transfer_state_changed(self, transfer, old, new):
                 transitions.append((loop.time(), transfer, old.name, new.name))
+                for u, rp, d, st_name, fut in state_waiters:
+                    if not fut.done() and new.name == st_name and transfer.username == u and \
+                            transfer.remote_path == rp and transfer.direction.name == d:
+                        fut.set_result(None)
         listener = Listener()
 
         async def on_added(event):
@@ -784,6 +903,26 @@ def _run(c, res, tmp):
         async def do_op(o):
             rec = {'op': o, 'status': 'no-transfer'}
             out['ops'].append(rec)
+            if o['after_state']:
+                # the call is aimed relative to the moment the transfer reaches a state (+ delay ms + steps)
+                pw, xw = peers[o['peer']], peers[o['peer']]['xfers'][o['xfer']]
+                t = find(o['peer'], o['xfer'])
+                if xw.get('rpath') is None:
+                    return
+                if t is None or t.state.VALUE.name != o['after_state']:
+                    fut = loop.create_future()
+                    state_waiters.append((names[o['peer']], xw['rpath'], 'DOWNLOAD' if pw['role'] == 'U' else 'UPLOAD',
+                                          o['after_state'], fut))
+                    rec['status'] = 'no-state'
+                    try:
+                        await asyncio.wait_for(fut, 90.0)
+                    except asyncio.TimeoutError:
+                        return
+                    rec['status'] = 'no-transfer'
+                if o['delay']:
+                    await asyncio.sleep(o['delay'] / 1000.0)
+                if o['steps']:
+                    await simloop.step(o['steps'])
             t = find(o['peer'], o['xfer'])
             if t is None:
                 return
@@ -834,7 +973,9 @@ def _run(c, res, tmp):
             rec['in_manager_at_return'] = any(x is t for x in tm.transfers)
             muted.add((t.username, t.remote_path))
             pp = peers[o['peer']]
-            if pp['role'] == 'U' and pp['late_offer_ms'] is not None:
+            if pp['role'] == 'U' and pp['late_offer_ms'] is not None and \
+                    not (o['peer_msg'] and o['peer_msg']['kind'] == 'queue_failed'):
+                # (an offer for a download the peer itself has failed meanwhile would legitimately restart it)
                 loop.call_later(pp['late_offer_ms'] / 1000.0, scripts[o['peer']].offer, t.remote_path, True)
             if o['then'] and o['op'] != 'remove':
                 # call sequence on the same transfer (pause, later abort / remove): nothing may happen in between and
@@ -861,6 +1002,29 @@ def _run(c, res, tmp):
                     rec['started_during_call'] = sorted(set(rec['started_during_call']) | {
                         e['routine'] for e in reg.neg[idx2:] if e['transfer'] is t and not e['task'].done()})
                     rec['in_manager_at_return'] = any(x is t for x in tm.transfers)
+            send_peer_msg(o, rec, t)
+
+        def send_peer_msg(o, rec, t):
+            # the peer says something about the file after the (last) call returned: a refusal / failure notice, never
+            # a new queue request or offer
+            pm = o['peer_msg']
+            if pm is None or rec['status'] != 'returned':
+                return
+            sc = scripts[o['peer']]
+            rec['peer_msg'] = dict(pm, sent=loop.time() + pm['delay'] / 1000.0)
+
+            def go():
+                if not world.net.can_connect_in(world.client_port(False)):
+                    return
+                if pm['kind'] == 'queue_failed':
+                    msg = M.PeerTransferQueueFailed.Request(t.remote_path, pm['reason'])
+                elif pm['kind'] == 'upload_failed':
+                    msg = M.PeerUploadFailed.Request(t.remote_path)
+                else:
+                    tk = sorted(m.ticket for _, m in getattr(sc, 'transfer_requests', []) if m.filename == t.remote_path)
+                    msg = M.PeerTransferReply.Request(tk[-1] if tk else 1, False, reason=pm['reason'])
+                sc._control().send_msg(msg)
+            loop.call_later(pm['delay'] / 1000.0, go)
 
         events = []
         for pi, p in enumerate(peers):
@@ -932,14 +1096,18 @@ def _run(c, res, tmp):
                     await tm.download('ghost', '@@g\\x\\g%d.bin' % ghost)
             else:
                 o = ev[1]
-                if o['steps']:
+                if o['steps'] and not o['after_state']:
                     await simloop.step(o['steps'])
                 last = max(last, at + (o['gap'] if o['then'] else 0))
                 op_tasks.append(asyncio.ensure_future(do_op(o)))
                 await simloop.step(1)
                 check_dups_polled('after:op')
         # quiesce: every pending connect, timeout and retry gets its chance
-        end = t0 + last / 1000.0 + HORIZON
+        if any(o['after_state'] for o in c['ops']):
+            # calls aimed at a state wait for it (at most 90 s)
+            await asyncio.wait(op_tasks, timeout=125.0)
+        extra = max([o['peer_msg']['delay'] for o in c['ops'] if o['peer_msg']] or [0]) / 1000.0
+        end = max(t0 + last / 1000.0, loop.time() if any(o['after_state'] for o in c['ops']) else 0.0) + extra + HORIZON
         while loop.time() < end - EPS:
             await asyncio.sleep(min(5.0, end - loop.time()))
             check_dups_polled('quiesce')
@@ -1111,8 +1279,23 @@ def _judge(c, out, res, names, loop_errors):
                 continue
             res.violate(f'{root}field-changed-after-return:{f}', f'{f}: {a!r} -> {b!r} before the next call; {ctx}')
         fin = out['final'][tid]
+        # documented effects of a message the peer sent about the file after the call returned: a queue failure fails
+        # a PAUSED download with the peer's reason, an upload failure notice clears remotely_queued
+        pm = rec.get('peer_msg')
+        alt = {}
+        if pm and rec['direction'] == 'DOWNLOAD' and rec['in_manager_at_return']:
+            if pm['kind'] == 'queue_failed' and rec['snap']['state'] == 'PAUSED':
+                alt = {'state': 'FAILED', 'fail_reason': pm['reason']}
+            elif pm['kind'] == 'upload_failed':
+                alt = {'remotely_queued': False}
+        if alt.get('state') and fin['state'] == alt['state'] and fin['fail_reason'] != alt['fail_reason']:
+            res.violate(f'{root}field-changed-after-return:fail_reason',
+                        f'fail_reason is {fin["fail_reason"]!r} after the peer failed the queue request with reason '
+                        f'{alt["fail_reason"]!r}; {ctx}')
         for f in FIELDS:
             if fin[f] != rec['snap'][f]:
+                if f in alt and fin[f] == alt[f]:
+                    continue
                 if f == 'remotely_queued' and fin[f] is False and \
                         any(t + LAT >= T - EPS for t in out['offline'].get(user, [])):
                     continue        # an OFFLINE status of the user handled after T legitimately resets the flag
@@ -1201,15 +1384,17 @@ def _judge(c, out, res, names, loop_errors):
 
 
 def run_shard(ctx):
-    n = 100 if ctx.tier == 'quick' else 2700
-    ctx.explore(case_strategy(), n, salt=0)
-    ctx.explore(case_strategy(focus='U'), n // 3, salt=1)
-    ctx.explore(case_strategy(focus='D'), n // 3, salt=2)
-    ctx.explore(case_strategy(focus='mid'), n // 3, salt=3)
-    ctx.explore(case_strategy(focus='reoffer'), n // 3, salt=4)
-    ctx.explore(offline_case(), n // 3, salt=5)
-    ctx.explore(sequence_case(), n // 3 + n // 10, salt=6)
-    ctx.explore(both_case(), n // 3, salt=7)
+    k = 1 if ctx.tier == 'quick' else 27         # cases per shard = k * the numbers below
+    ctx.explore(case_strategy(), 70 * k, salt=0)
+    ctx.explore(case_strategy(focus='U'), 20 * k, salt=1)
+    ctx.explore(case_strategy(focus='D'), 20 * k, salt=2)
+    ctx.explore(case_strategy(focus='mid'), 20 * k, salt=3)
+    ctx.explore(case_strategy(focus='reoffer'), 22 * k, salt=4)
+    ctx.explore(offline_case(), 25 * k, salt=5)
+    ctx.explore(sequence_case(), 36 * k, salt=6)
+    ctx.explore(both_case(), 22 * k, salt=7)
+    ctx.explore(peermsg_case(), 28 * k, salt=8)
+    ctx.explore(upfail_case(), 22 * k, salt=9)
 
 
 MANIFEST_ENTRY = {
